@@ -191,6 +191,15 @@ pub fn drive(d: &mut Driver)
 			}
 		}
 	}
+	if quick
+	{
+		// slice of the thorough tier's n = 4 space: long cycles and bystanders need four containers
+		d.bound("sparse graphs on 4 containers (quick only; the thorough tier has all graphs on 4)", json!({"real edges": "at most 5, no self-loops", "kind assignments": 16, "orders": "all 24 orders of the containers, main last"}));
+		for mask in 0..16usize
+		{
+			jobs.push(json!({"space": "sparse4", "mask": mask}));
+		}
+	}
 	d.phase("dependency graphs x permutations", jobs);
 	d.phase("duplicate names, type legality per position, word sizes", vec![json!({"space": "duplicates"}), json!({"space": "legality"}), json!({"space": "words"})]);
 	d.assume("model: a container depends on another through a constant in its initialiser, a named array length, a member of structure type, or a size-of in a constant; members of pointer type do not count (docs/errors.md E413, E415, E416)");
@@ -223,6 +232,28 @@ pub fn work(spec: &Value, w: &mut WorkerCtx)
 				let edges = decode_graph(n, code, ptr, &kinds);
 				let model = cycle_codes(&kinds, &edges);
 				// the property asks for a cycle code, not for which of the three
+				let expect: Vec<u16> = if model.is_empty() { vec![] } else { vec![413, 415, 416] };
+				let texts: Vec<String> = perms.iter().map(|p| graph_program(&kinds, &edges, p)).collect();
+				w.result.transitions += texts.len() as u64;
+				let what = if expect.is_empty() { "acyclic graph".to_string() } else { format!("cyclic graph (model: {model:?})") };
+				judge_orders(&texts, Some(expect), &what, w);
+			}
+		}
+		"sparse4" =>
+		{
+			let n = 4;
+			let mask = spec["mask"].as_u64().unwrap() as usize;
+			let kinds = kinds_of(n, mask);
+			let perms: Vec<Vec<usize>> = permutations(n + 1).into_iter().filter(|p| p[n] == n).collect();
+			for code in 0u64..(1 << (n * n))
+			{
+				let edges = decode_graph(n, code, false, &kinds);
+				let count: usize = edges.iter().map(|r| r.iter().filter(|e| **e == 1).count()).sum();
+				if count > 5 || (0..n).any(|i| edges[i][i] != 0)
+				{
+					continue;
+				}
+				let model = cycle_codes(&kinds, &edges);
 				let expect: Vec<u16> = if model.is_empty() { vec![] } else { vec![413, 415, 416] };
 				let texts: Vec<String> = perms.iter().map(|p| graph_program(&kinds, &edges, p)).collect();
 				w.result.transitions += texts.len() as u64;
